@@ -245,7 +245,7 @@ def count_lines(path):
     return n
 
 
-def validate_trace(trace_module, events_path, workdir, tag, timeout=1800, constants=None):
+def validate_trace(trace_module, events_path, workdir, tag, timeout=1800, constants=None, invariants=()):
     """impl -> spec: TLC consumes the recorded events with the trace specification.
 
     Returns dict(events, accepted, rejected=[{index, props, event}], ...)."""
@@ -253,7 +253,7 @@ def validate_trace(trace_module, events_path, workdir, tag, timeout=1800, consta
     if n == 0:
         return dict(events=0, accepted=0, rejected=[], generated=0, distinct=0, wall=0.0, cmd="")
     cfg = os.path.join(workdir, "trace-%s.cfg" % tag)
-    write_cfg(cfg, constants=constants, spec="TraceSpec", postcondition="TraceAccepted")
+    write_cfg(cfg, constants=constants, spec="TraceSpec", postcondition="TraceAccepted", invariants=invariants)
     out = os.path.join(workdir, "trace-%s.out" % tag)
     module_path = os.path.join(SPEC, "trace", trace_module + ".tla")
     meta = os.path.join(workdir, "meta-trace-" + tag)
@@ -276,6 +276,8 @@ def validate_trace(trace_module, events_path, workdir, tag, timeout=1800, consta
         generated, distinct = int(m.group(1)), int(m.group(2))
     res = dict(events=n, generated=generated, distinct=distinct, wall=time.time() - t0,
                cmd="TRACE=%s tlc -workers 1 -config %s %s.tla" % (os.path.basename(events_path), os.path.basename(cfg), trace_module))
+    if "is violated" in text:
+        raise ToolError("trace validation (%s): an invariant of the trace specification is violated:\n%s" % (tag, text[-3000:]))
     rejected = []
     for m in re.finditer(r'<<"TRACE-REJECTED", (\d+), \{([^}]*)\}>>', text):
         rejected.append((int(m.group(1)), re.findall(r'"([^"]+)"', m.group(2))))
